@@ -140,6 +140,20 @@ CLAIMED["C04"] = dict(
          "text (cyclic type in the checker -> stack overflow; builtin name as last statement; -{}; | | self; non-ASCII spans).",
     technique="TLC-enumerated token sequences; trace validation of call/return events against a TLA+ contract",
 )
+CLAIMED["C19"] = dict(
+    category="model_checking",
+    text="Session.tla with K threads per process: TLC explores every interleaving of the compile steps over the shared interner and the "
+         "process environment variable the macro stage publishes its file in, checks that what each compilation yields is a function "
+         "of its source and that no started compilation can be blocked for good, and refutes the modelled race. The harness starts K "
+         "threads that compile and run their jobs at the same time with seeded yields before acquisitions of the session lock; every "
+         "thread's observation is validated against the solo observation of the same source (DeterminismTrace.tla), a round that does "
+         "not return is a deadlock, and in logged rounds every interner operation is recorded under the lock and validated as a "
+         "history of a sequential interner (SessionTrace.tla).",
+    design_ref="DESIGN.md §6 C19",
+    note="Real schedules are perturbed, not enumerated; only the model is exhaustive. The environment-variable guard of the macro "
+         "stage is a pinned finding (model counterexample and real runs).",
+    technique="TLA+ session model with threads checked exhaustively with TLC; recorded per-thread observations and lock-ordered interner histories validated against trace specifications",
+)
 CLAIMED["C20"] = dict(
     category="model_checking",
     text="Ffi.tla defines the universe of macro-stage values (symbolic numbers incl. -0, denormal, infinities, NaN with payload; "
